@@ -194,3 +194,65 @@ def zero_syndrome_codeword(ctx, cfg):
     is_zero = SP.conj(S.eq(v, 0) for v in P(s.value).reshape(-1))
     in_code = SP.conj(S.eq(v, 0) for v in resid)
     ctx.ensure("zero_syndrome_implies_codeword", S.lor(S.lnot(is_zero), in_code))
+
+
+# ---------------------------------------------------------------------------------------- helper contracts on ALL small binary matrices
+def _shape_cfgs(tier):
+    lim = 12 if tier == "quick" else 16
+    return [codes.Cfg("allmat", k, n) for k in range(1, 5) for n in range(k, 7) if k * n <= lim]
+
+
+@obligation("C01.null_space_all_small_matrices", function=F + "linear_block_code.py:compute_null_space_matrix", configs=_shape_cfgs, kind="ground", engine="ground")
+def null_space_all_small(cfg):
+    """compute_null_space_matrix(G): rows form a basis of the GF(2) null space - for EVERY binary k x n matrix of the given shape
+    (all ranks, all column orders): H binary, G.H^T = 0, rank H = n - rank G, H has n - rank G rows (exhaustive, 2^(k n) matrices)"""
+    from kaira.models.fec.encoders.linear_block_code import compute_null_space_matrix
+
+    _, k, n = cfg
+    bad = None
+    count = 0
+    for bits in range(1 << (k * n)):
+        rows = [[(bits >> (i * n + j)) & 1 for j in range(n)] for i in range(k)]
+        Gm = Gd.rows_to_masks(rows)
+        H = compute_null_space_matrix(torch.tensor(rows, dtype=torch.float32))
+        count += 1
+        Hl = [[float(v) for v in r] for r in H.tolist()]
+        ok = all(v in (0.0, 1.0) for r in Hl for v in r) and (H.shape[1] == n if H.numel() or H.dim() == 2 else True)
+        Hm = Gd.rows_to_masks([[int(v) for v in r] for r in Hl]) if ok else []
+        rg = Gd.rank(Gm)
+        ok = ok and Gd.gf2_mul_GHt(Gm, Hm) and Gd.rank(Hm) == n - rg and len(Hm) == n - rg
+        if not ok:
+            bad = {"G": rows, "H": Hl, "rank_G": rg}
+            break
+    yield "rows_are_a_basis_of_the_null_space", bad is None, f"all {count} binary {k}x{n} matrices" if bad is None else f"fails for G = {bad['G']}: H = {bad['H']} (rank G = {bad['rank_G']})"
+
+
+@obligation("C01.ldpc_generator_all_small_H", function=F + "ldpc_code.py:LDPCCodeEncoder.get_generator_matrix; kaira/models/fec/utils.py:row_reduction", configs=_shape_cfgs, kind="ground", engine="ground")
+def ldpc_generator_all_small(cfg):
+    """LDPCCodeEncoder.get_generator_matrix(H): the rows of G form a basis of the null space of H - for EVERY binary r x n matrix H of the
+    given shape whose null space is non-trivial (all ranks incl. rank-deficient H): G binary, H.G^T = 0, rank G = n - rank H = number of rows"""
+    from kaira.models.fec.encoders.ldpc_code import LDPCCodeEncoder
+
+    _, r, n = cfg
+    bad = None
+    count = 0
+    probe = LDPCCodeEncoder.__new__(LDPCCodeEncoder)
+    for bits in range(1 << (r * n)):
+        rows = [[(bits >> (i * n + j)) & 1 for j in range(n)] for i in range(r)]
+        Hm = Gd.rows_to_masks(rows)
+        rk = Gd.rank(Hm)
+        if rk == n:
+            continue  # only the zero word: no code
+        try:
+            G = LDPCCodeEncoder.get_generator_matrix(probe, torch.tensor(rows, dtype=torch.float32))
+        except Exception as e:
+            bad = {"H": rows, "raised": repr(e)[:200]}
+            break
+        count += 1
+        Gl = [[int(v) for v in row] for row in G.to(torch.int64).tolist()]
+        Gm = Gd.rows_to_masks(Gl)
+        ok = all(v in (0, 1) for row in Gl for v in row) and all(len(row) == n for row in Gl) and Gd.gf2_mul_GHt(Gm, Hm) and Gd.rank(Gm) == n - rk and len(Gm) == n - rk
+        if not ok:
+            bad = {"H": rows, "G": Gl, "rank_H": rk}
+            break
+    yield "rows_are_a_basis_of_the_null_space_of_H", bad is None, f"all {count} binary {r}x{n} check matrices with a non-trivial null space" if bad is None else f"fails for H = {bad['H']}: {bad}"
